@@ -355,7 +355,7 @@ theorem clamp_call (c : Ctx) (a : Arg) (lo hi : Bytes) (mn mx : Int)
   simp only [callHelper, Arith.kfClamp, List.map, evalStageInt_const, h1, h2, ok, run_bind, Arg.run_stage]
   cases atoi (a.val c) <;> rfl
 
-theorem substr_call (c : Ctx) (a l n : Arg) :
+theorem substr_call (c : Ctx) (a l n : Arg) (hs : ((a.val c).length : Int) ≤ maxInt64) :
     callHelper Strings.kfSubstr [a, l, n] c =
       if (a.val c).isEmpty then .ok []
       else match atoi (l.val c), atoi (n.val c) with
@@ -364,8 +364,9 @@ theorem substr_call (c : Ctx) (a l n : Arg) :
   simp only [callHelper, Strings.kfSubstr, List.map, ok, run_bind, Arg.run_stage]
   by_cases he : (a.val c).isEmpty = true
   · simp [he, run_pure]
-  · simp only [he]
-    rw [if_neg (by simp), if_neg (by simp)]
+  · have hg : ¬ (((a.val c).length : Int) > maxInt64) := by omega
+    simp only [he]
+    rw [if_neg (by simp), if_neg hg, if_neg (by simp)]
     simp only [run_bind, Arg.run_stage]
     cases atoi (l.val c) <;> cases atoi (n.val c) <;> try rfl
     simp only []
@@ -464,7 +465,7 @@ theorem bucketRange_eq (v s : Int) (hs : 0 < s) (hv : inInt64 v = true) (hs64 : 
     more than 2 fields, `(key, "")` for one field, `(key, value)` for two. -/
 def lineEntry (commentPrefix line : Bytes) : Option (Bytes × Bytes) :=
   if !commentPrefix.isEmpty && commentPrefix.isPrefixOf line then none
-  else match Misc.fieldsAscii line [] with
+  else match Misc.fieldsGo line [] 0 with
     | [k] => some (k, [])
     | [k, v] => some (k, v)
     | _ => none
@@ -474,7 +475,7 @@ theorem lookupStep_eq (p : Bytes) (tbl : List (Bytes × Bytes)) (line : Bytes) :
   unfold Misc.lookupStep lineEntry
   split
   · simp
-  · generalize Misc.fieldsAscii line [] = fs
+  · generalize Misc.fieldsGo line [] 0 = fs
     match fs with
     | [] => simp
     | [_] => simp
@@ -500,12 +501,11 @@ theorem tableGet_hit (pre post : List (Bytes × Bytes)) (k v : Bytes) (h : ∀ e
     simp [List.find?_eq_none]; exact fun a b hab => h (a, b) hab
   simp [List.reverse_append, List.find?_append, hpost]
 
-theorem lookup_call (c : Ctx) (render : Option Bytes → Bytes) (key : Arg) (content : Bytes)
-    (hm : Misc.lookupModelled content = true) :
+theorem lookup_call (c : Ctx) (render : Option Bytes → Bytes) (key : Arg) (content : Bytes) :
     callHelper (Misc.lookupBuilder render) [key, .const content] c =
       .ok (render (Misc.tableGet (Misc.buildLookupTable content []) (key.val c))) := by
   simp only [callHelper, Misc.lookupBuilder, List.map, List.length_cons, List.length_nil]
-  simp [Arg.probe_const, evalStageIndexOrDefault, hm, ok, run_bind, Arg.run_stage, run_pure]
+  simp [Arg.probe_const, evalStageIndexOrDefault, ok, run_bind, Arg.run_stage, run_pure]
 
 /-! ### select -/
 
